@@ -67,7 +67,7 @@ def handleEventBatchBody : List String :=
    "for _, event := range batch { h.parseAndCaptureEvent(ctx, logger, event) }",
    "changeType, gr := h.cfg.processor.Process()",
    "var err error",
-   "switch changeType { case state.NoChange: logger.Info(\"Handling events didn't result into NGINX configuration changes\") if !h.cfg.nginxConfiguredOnStartChecker.ready && h.cfg.nginxConfiguredOnStartChecker.firstBatchError == nil { h.cfg.nginxConfiguredOnStartChecker.setAsReady() } return case state.EndpointsOnlyChange: h.version++ cfg := dataplane.BuildConfiguration(ctx, gr, h.cfg.serviceResolver, h.version) depCtx, getErr := h.getDeploymentContext(ctx) if getErr != nil { logger.Error(getErr, \"error getting deployment context for usage reporting\") } cfg.DeploymentContext = depCtx h.setLatestConfiguration(&cfg) if h.cfg.plus { err = h.updateUpstreamServers(cfg) } else { err = h.updateNginxConf(ctx, cfg) } case state.ClusterStateChange: h.version++ cfg := dataplane.BuildConfiguration(ctx, gr, h.cfg.serviceResolver, h.version) depCtx, getErr := h.getDeploymentContext(ctx) if getErr != nil { logger.Error(getErr, \"error getting deployment context for usage reporting\") } cfg.DeploymentContext = depCtx h.setLatestConfiguration(&cfg) err = h.updateNginxConf(ctx, cfg) }",
+   "switch changeType { case state.NoChange: logger.Info(\"Handling events didn't result into NGINX configuration changes\") if !h.cfg.nginxConfiguredOnStartChecker.ready && h.cfg.nginxConfiguredOnStartChecker.firstBatchError == nil { h.cfg.nginxConfiguredOnStartChecker.setAsReady() } return case state.EndpointsOnlyChange: h.version++ cfg := dataplane.BuildConfiguration(ctx, gr, h.cfg.serviceResolver, h.version) depCtx, getErr := h.getDeploymentContext(ctx) if getErr != nil { logger.Error(getErr, \"error getting deployment context for usage reporting\") } cfg.DeploymentContext = depCtx h.setLatestConfiguration(&cfg) if h.cfg.plus && h.latestReloadResult.Error == nil { err = h.updateUpstreamServers(cfg) } else { err = h.updateNginxConf(ctx, cfg) } case state.ClusterStateChange: h.version++ cfg := dataplane.BuildConfiguration(ctx, gr, h.cfg.serviceResolver, h.version) depCtx, getErr := h.getDeploymentContext(ctx) if getErr != nil { logger.Error(getErr, \"error getting deployment context for usage reporting\") } cfg.DeploymentContext = depCtx h.setLatestConfiguration(&cfg) err = h.updateNginxConf(ctx, cfg) }",
    "var nginxReloadRes status.NginxReloadResult",
    "if err != nil { logger.Error(err, \"Failed to update NGINX configuration\") nginxReloadRes.Error = err if !h.cfg.nginxConfiguredOnStartChecker.ready { h.cfg.nginxConfiguredOnStartChecker.firstBatchError = err } } else { logger.Info(\"NGINX configuration was successfully updated\") if !h.cfg.nginxConfiguredOnStartChecker.ready { h.cfg.nginxConfiguredOnStartChecker.setAsReady() } }",
    "h.latestReloadResult = nginxReloadRes",
